@@ -151,7 +151,7 @@ fn check_mono_instances(
     let (errs, _) = crate::irck::check_mono(&comp.mono, &comp.monoenv);
     if let Some(e) = errs
         .iter()
-        .find(|e| e.rule.starts_with("residue") || e.rule == "missing-fn" || e.rule == "dup-fn")
+        .find(|e| e.rule.starts_with("residue") || e.rule == "missing-fn" || e.rule == "dup-fn" || e.rule.starts_with("call-"))
     {
         return Err((format!("C07|mono|{}", e.rule), format!("{} in {}: {}", e.rule, e.func, e.detail)));
     }
